@@ -26,3 +26,9 @@ Proof. vm_compute. reflexivity. Qed.
 Lemma peer_close_bounds_pending_write_holds :
   peer_close_bounds_pending_write gen_peer_close_bounds_write = true.
 Proof. vm_compute. reflexivity. Qed.
+
+(** A session handler never blocks on its client's queue (shared with C07):
+    a handler stuck there would keep [waitHandlers.Wait()], i.e. Close and
+    RemoveRealm, waiting for a client that stopped reading. *)
+Lemma handlers_never_block_on_client_holds : no_blocking_send_to_client gen_funcs = true.
+Proof. vm_compute. reflexivity. Qed.
